@@ -82,9 +82,11 @@ def mk(rng, quick):
         if where is not None:
             txt += " WHERE " + sql(where)
     nparts = rng.choice([1, 2, 3])
+    # partition values: texts, small integers, or float64 values that agree in their first six significant digits
+    pool = rng.choice([["p", "q", "r"], ["p", "q", "r"], [7, 8, 9], [{"$f": 100001.5}, {"$f": 100002.5}, {"$f": 100002.25}]])
     rows = []
     for i in range(rng.choice([4, 6, 8] if quick else [6, 8, 12])):
-        row = {"id": i + 1, "k": rng.choice(["p", "q", "r"][:nparts]), "w": rng.choice([0, 1, 1, 2])}
+        row = {"id": i + 1, "k": rng.choice(pool[:nparts]), "w": rng.choice([0, 1, 1, 2])}
         x = rng.choice([None, MISSING, 1, 1, 2, 3, -1, {"$f": 2.5}])
         if x != MISSING: row["v"] = x
         rows.append(row)
